@@ -2,37 +2,63 @@ import RedisVerif.Driver.Codec
 import RedisVerif.Model.Ring
 
 /-
-  C19 sub-driver (stateful).  The state holds the table of real virtual-node positions
-  (`hashV`, obtained by the harness through hook H2), the current model ring and router.
+  C19 sub-driver (stateful).  The model HASHES ITSELF: virtual-node positions are
+  `Ring.vnodePos Sip.sip13` (SipHash-1-3 over the id's 8 and the index's 4 little-endian bytes),
+  key positions `Ring.keyPosOf Sip.sip13 HB.keyStr` (the key's bytes and 0xff).  The real
+  positions (hook H2) are carried by the `V` / `KP` lines and only COMPARED (`conflicts`).
 
-    V <node> <count> <pos_0> … <pos_{count-1}>     define hashV node i = pos_i          → ok
+    SIP <hex>                                      DefaultHasher over raw bytes          → <u64>
+    V <node> <count> <pos_0> … <pos_{count-1}>     real positions of the node's vnodes   → ok conflicts=<c>
+    KP <m> (<keyhex> <keypos>)*m                   real ring positions of keys           → ok conflicts=<c>
     NEW <vnodes> <rf> <k> <n_1> … <n_k>            HashRing::new                         → ring summary
+    NEWD <k> <n_1> … <n_k>                         HashRing::with_defaults               → ring summary
     ADD <node> | REM <node>                        add_node / remove_node                → ring summary
+    OBS <rf> <m> (<keypos> <node>)*m               is_responsible : is_responsible_with_rf : get_primary : contains_node
+                                                                                         → o a:b:p:c|…
+    STATS <m> <keypos>*                            get_distribution_stats                → stats <total> <min> <max>
+    ARF <base> <hot> <h> <hot keypos>*h <m> <keypos>*m
+                                                   AdaptiveReplicationManager::get_rf_for_key, then
+                                                   get_replicas_with_rf(key, that rf)    → a <rf>:<list>|…
+    RUPD <id> <addr> | RREM <id>                   update_peer / remove_peer             → peers …
+    ROUTES <m> <keypos>*                           route_with_stats                      → tbl … | stats <deltas> <assignments> <saved> <targets>
+    RATIO <m> <keypos>*                            calculate_reduction_ratio             → ratio <selective> <broadcast>
+    GNEW <self> <router 0|1>                       GossipState::new / with_router(current router) → g ok
+    GHB <n> | GADV <n>                             queue_heartbeat × n / advance_epoch × n → g ok
+    GQ <m> <keypos>* | GQB <m> <keypos>*           queue_deltas / queue_deltas_broadcast → g ok
+    GSET                                           set_router(current router)            → g ok
+    GSEL                                           is_selective                          → sel <0|1>
+    GDRAIN                                         drain_outbound                        → q <n> <entries sorted: H@e×k, B@e:…, T<t>@e:…>
+    LOOPI <gossip_interval_ms>                     does a gossip loop start?             → runs | panic zero-period
+    LOOP <me> <npeers> <sel> <part> <enabled> <m> <keypos>*
+                                                   one tick of a gossip loop of production/gossip_manager.rs
+                                                   (state with the from_config router)   → loop <peer index>:<keypos,…>|…
     K <rf|-> <m> <keypos>*                         get_replicas[_with_rf] per key        → r a,b|c,d|…
     T <sender> <m> <keypos>*                       get_gossip_targets per key            → t a,b|…
     RNEW <self> <selective> <k> <id>*              GossipRouter::new (address i = peer i)→ peers id:addr …
-    RCFG <replica_id> <npeers> <selective>         GossipRouter::from_config             → peers id:addr …
+    RCFG <replica_id> <npeers> <selective> <partitioned> <enabled>
+                                                   GossipRouter::from_config             → peers id:addr …
     RNONE                                          GossipState without router            → peers none
     ROUTE <m> <keypos>*                            route_deltas                          → tbl id:kp,kp …
     QUEUE <heartbeats> <m> <keypos>*               queue_heartbeat × n, queue_deltas, drain → q <n> hb=<n> …
 
-  ring summary = `ring <len> <chk> inj=<0|1> phys <n>*` where chk is a polynomial checksum of the
-  (pos, node, vidx) sequence and inj says whether all positions are pairwise distinct.
+  ring summary = `ring <len> <chk> inj=<0|1> rf=<rf> n=<node_count> ver=<version> phys <n>*` where
+  chk is a polynomial checksum of the (pos, node, vidx) sequence and inj says whether all
+  positions are pairwise distinct.
 -/
 namespace RedisVerif.Driver.C19
 open RedisVerif RedisVerif.Driver RedisVerif.Ring
 
 structure St where
-  hv : List (Nat × Array Nat)
-  ring : HashRing
+  vring : VRing
   router : Option Router
+  g : GState
 
-def St.init : St := { hv := [], ring := Ring.empty 0 0, router := none }
+def St.init : St := { vring := ⟨Ring.empty 0 0, 0⟩, router := none, g := GState.new 0 none }
 
-def St.hashV (st : St) : Nat → Nat → Nat := fun node i =>
-  match st.hv.lookup node with
-  | some a => a.getD i 0
-  | none => 0
+def St.ring (st : St) : HashRing := st.vring.ring
+
+/-- `HashRing::hash_virtual_node` of the current tree -/
+def St.hashV (_ : St) : Nat → Nat → Nat := vnodePos Sip.sip13
 
 def chkP : Nat := 2305843009213693951
 
@@ -46,10 +72,23 @@ def adjDistinct : List Slot → Bool
 
 def showList (l : List Nat) : String := ",".intercalate (l.map toString)
 
-def showRing (r : HashRing) : String :=
+def showRing (v : VRing) : String :=
+  let r := v.ring
   let inj := if adjDistinct r.ring then "1" else "0"
-  " ".intercalate (["ring", toString r.ring.length, toString (ringChk r.ring), s!"inj={inj}", "phys"]
-    ++ r.phys.map toString)
+  " ".intercalate (["ring", toString r.ring.length, toString (ringChk r.ring), s!"inj={inj}",
+    s!"rf={r.rf}", s!"n={r.phys.length}", s!"ver={v.version}", "phys"] ++ r.phys.map toString)
+
+def showEntry (e : Msg × Nat) : String :=
+  match e.1 with
+  | .targeted t ds => s!"T{t}@{e.2}:{",".intercalate (ds.map toString)}"
+  | .broadcast ds => s!"B@{e.2}:{",".intercalate (ds.map toString)}"
+  | .heartbeat => s!"H@{e.2}"
+
+/-- insertion sort of strings (the drained queue is compared as a multiset: the messages of one
+    `queue_deltas` call are pushed in `HashMap` order) -/
+def insStr (s : String) : List String → List String
+  | [] => [s]
+  | x :: xs => if s ≤ x then s :: x :: xs else x :: insStr s xs
 
 def showTbl (tag : String) (tbl : NMap (List Nat)) : String :=
   " ".intercalate (tag :: tbl.map (fun p => s!"{p.1}:{showList p.2}"))
@@ -78,24 +117,122 @@ def showQueue (q : List Msg) : String :=
 def cmd (st : St) : P (St × String) := do
   let op ← tok
   match op with
+  | "SIP" => do
+    let b ← bytesTok
+    pure (st, toString (Sip.sip13 b))
   | "V" => do
     let node ← nat
     let ps ← natList
-    pure ({ st with hv := (node, ps.toArray) :: st.hv.filter (fun p => p.1 != node) }, "ok")
+    let c := (ps.zipIdx).foldl (fun (c : Nat) p => if vnodePos Sip.sip13 node p.2 == p.1 then c else c + 1) 0
+    pure (st, s!"ok conflicts={c}")
+  | "KP" => do
+    let m ← nat
+    let es ← repeatP m (do let k ← strKey; let p ← nat; pure (k, p))
+    let c := es.foldl (fun (c : Nat) e => if keyPosOf Sip.sip13 HB.keyStr e.1 == e.2 then c else c + 1) 0
+    pure (st, s!"ok conflicts={c}")
   | "NEW" => do
     let vn ← nat
     let rf ← nat
     let nodes ← natList
-    let r := Ring.new st.hashV nodes vn rf
-    pure ({ st with ring := r }, showRing r)
+    let r := VRing.new st.hashV nodes vn rf
+    pure ({ st with vring := r }, showRing r)
+  | "NEWD" => do
+    let nodes ← natList
+    let r := VRing.new st.hashV nodes 150 3
+    pure ({ st with vring := r }, showRing r)
   | "ADD" => do
     let x ← nat
-    let r := addNode st.hashV st.ring x
-    pure ({ st with ring := r }, showRing r)
+    let r := st.vring.add st.hashV x
+    pure ({ st with vring := r }, showRing r)
   | "REM" => do
     let x ← nat
-    let r := removeNode st.ring x
-    pure ({ st with ring := r }, showRing r)
+    let r := st.vring.remove x
+    pure ({ st with vring := r }, showRing r)
+  | "OBS" => do
+    let rf ← nat
+    let m ← nat
+    let ps ← repeatP m (do let k ← nat; let n ← nat; pure (k, n))
+    let b := fun (x : Bool) => if x then "1" else "0"
+    let f := fun (p : Nat × Nat) =>
+      let pr := match getPrimary st.ring p.1 with | some x => toString x | none => "-"
+      s!"{b (isResponsible st.ring p.1 p.2)}:{b (isResponsibleWithRf st.ring p.1 p.2 rf)}:{pr}:{b (st.ring.phys.contains p.2)}"
+    pure (st, "o " ++ "|".intercalate (ps.map f))
+  | "ARF" => do
+    let base ← nat
+    let hot ← nat
+    let hs ← natList
+    let ks ← natList
+    let ov : NMap Nat := hs.foldl (fun m k => NMap.insert k hot m) []
+    let f := fun k => let rf := rfForKey ov base k; s!"{rf}:{showList (getReplicasWithRf st.ring k rf)}"
+    pure (st, "a " ++ "|".intercalate (ks.map f))
+  | "STATS" => do
+    let ks ← natList
+    let (t, mn, mx) := distStats st.ring ks
+    pure (st, s!"stats {t} {mn} {mx}")
+  | "RUPD" => do
+    let id ← nat
+    let addr ← nat
+    match st.router with
+    | none => failure
+    | some rt => let rt' := rt.updatePeer id addr; pure ({ st with router := some rt' }, showPeers (some rt'))
+  | "RREM" => do
+    let id ← nat
+    match st.router with
+    | none => failure
+    | some rt => let rt' := rt.removePeer id; pure ({ st with router := some rt' }, showPeers (some rt'))
+  | "ROUTES" => do
+    let ks ← natList
+    match st.router with
+    | none => failure
+    | some rt =>
+      let (tbl, a, b, c, d) := routeWithStats st.ring rt ks
+      pure (st, showTbl "tbl" tbl ++ s!" | stats {a} {b} {c} {d}")
+  | "RATIO" => do
+    let ks ← natList
+    match st.router with
+    | none => failure
+    | some rt => let (a, b) := reductionCounts st.ring rt ks; pure (st, s!"ratio {a} {b}")
+  | "GNEW" => do
+    let self ← nat
+    let w ← nat
+    pure ({ st with g := GState.new self (if w != 0 then st.router else none) }, "g ok")
+  | "GHB" => do
+    let n ← nat
+    pure ({ st with g := (List.range n).foldl (fun g _ => g.queueHeartbeat maxOutbound) st.g }, "g ok")
+  | "GADV" => do
+    let n ← nat
+    pure ({ st with g := (List.range n).foldl (fun g _ => g.advanceEpoch) st.g }, "g ok")
+  | "GQ" => do
+    let ks ← natList
+    pure ({ st with g := st.g.queueDeltas maxOutbound st.ring ks }, "g ok")
+  | "GQB" => do
+    let ks ← natList
+    pure ({ st with g := st.g.queueBroadcast maxOutbound ks }, "g ok")
+  | "GSET" =>
+    match st.router with
+    | none => failure
+    | some rt => pure ({ st with g := st.g.setRouter rt }, "g ok")
+  | "GSEL" => pure (st, s!"sel {if st.g.isSelective then 1 else 0}")
+  | "GDRAIN" => do
+    let (q, g') := st.g.drain
+    let es := (q.map showEntry).foldr insStr []
+    pure ({ st with g := g' }, " ".intercalate (["q", toString q.length] ++ es))
+  | "LOOPI" => do
+    let ms ← nat
+    match loopStart currentIntervalClamped ms with
+    | .ticksEvery _ => pure (st, "runs")
+    | .panicZeroPeriod => pure (st, "panic zero-period")
+  | "LOOP" => do
+    let me ← nat
+    let np ← nat
+    let sel ← nat
+    let part ← nat
+    let en ← nat
+    let ks ← natList
+    let rt := fromConfig me np (usesSelectiveGossip (sel != 0) (part != 0) (en != 0))
+    let (out, _) := loopTick loopArith maxOutbound st.ring me np (GState.new me (some rt)) ks
+    let rows := (List.range np).map fun i => s!"{i}:{showList (deliveredTo out i)}"
+    pure (st, "loop " ++ "|".intercalate rows)
   | "K" => do
     let rf ← optNat
     let ks ← natList
@@ -118,7 +255,9 @@ def cmd (st : St) : P (St × String) := do
     let rid ← nat
     let np ← nat
     let sel ← nat
-    let rt := fromConfig rid np (sel != 0)
+    let part ← nat
+    let en ← nat
+    let rt := fromConfig rid np (usesSelectiveGossip (sel != 0) (part != 0) (en != 0))
     pure ({ st with router := some rt }, showPeers (some rt))
   | "RNONE" => pure ({ st with router := none }, showPeers none)
   | "ROUTE" => do
